@@ -332,18 +332,18 @@ Proof.
   transitivity (m * Pe * D * (A * B * C)); [ring|]. rewrite X. ring.
 Qed.
 
-Theorem normal_fast_correctly_rounded : forall e m raw, -307 < e < 288 -> 1 <= m < W64 ->
+Lemma normal_fast_core : forall e m raw, -307 < e < 288 -> 1 <= m < W64 ->
   parse_floating_normal_fast e m = Some (Some raw) ->
-  exists E, 1 <= E <= 2045 /\
-    let q := nearest_scaled m e (E - 1075) in
-    4503599627370496 <= q <= 9007199254740992 /\ raw = assemble q E.
+  exists H, 4611686018427387904 <= H < W64 /\
+    (H / 512) * 512 * (tab_D e * (W64 * W64)) < m * 2 ^ leading_zeros 64 m * tab_N e < (H / 512 + 1) * 512 * (tab_D e * (W64 * W64)) /\
+    raw = nf_tail H (F10 e - leading_zeros 64 m).
 Proof.
   intros e m raw He Hm Run. rewrite normal_fast_is_model in Run by lia. unfold nf_model in Run.
   destruct (tab_fact e ltac:(lia)) as [s2 [s2x [Ei [R2 [R2x [HD Terr]]]]]]. rewrite Ei in Run.
   destruct (leading_zeros_range m ltac:(unfold W64 in *; lia)) as [Rlz Rn].
   set (lz := leading_zeros 64 m) in *. set (s1 := m * 2 ^ lz) in *.
   assert (Rs1 : 9223372036854775808 <= s1 < W64) by (change 9223372036854775808 with (2 ^ 63); lia).
-  destruct (nf_stage s1 s2 s2x) as [[H|]|] eqn:St; try discriminate. injection Run as <-.
+  destruct (nf_stage s1 s2 s2x) as [[H|]|] eqn:St; try discriminate. injection Run as Eraw.
   set (N := tab_N e) in *. set (D := tab_D e) in *.
   (* the decided word lies in [2^62, 2^64) and its 512-block contains the exact product *)
   assert (K : 4611686018427387904 <= H < W64 /\
@@ -396,7 +396,21 @@ Proof.
       destruct SS as [F1 F2]. split.
       + replace ((hi + carry s1 s2 s2x) / 512 * 512 * (D * (W64 * W64))) with ((hi + carry s1 s2 s2x) / 512 * (512 * (W64 * W64)) * D) by ring. exact F1.
       + replace (((hi + carry s1 s2 s2x) / 512 + 1) * 512 * (D * (W64 * W64))) with (((hi + carry s1 s2 s2x) / 512 + 1) * (512 * (W64 * W64)) * D) by ring. exact F2. }
-  destruct K as [RH Blk].
+  destruct K as [RH Blk]. exists H. split; [exact RH|]. split; [exact Blk|]. symmetry. exact Eraw.
+Qed.
+
+Theorem normal_fast_correctly_rounded : forall e m raw, -307 < e < 288 -> 1 <= m < W64 ->
+  parse_floating_normal_fast e m = Some (Some raw) ->
+  exists E, 1 <= E <= 2045 /\
+    let q := nearest_scaled m e (E - 1075) in
+    4503599627370496 <= q <= 9007199254740992 /\ raw = assemble q E.
+Proof.
+  intros e m raw He Hm Run.
+  destruct (normal_fast_core e m raw He Hm Run) as [H [RH [Blk ->]]].
+  destruct (tab_fact e ltac:(lia)) as [s2 [s2x [Ei [R2 [R2x [HD Terr]]]]]].
+  destruct (leading_zeros_range m ltac:(unfold W64 in *; lia)) as [Rlz Rn].
+  set (lz := leading_zeros 64 m) in *. set (s1 := m * 2 ^ lz) in *.
+  set (N := tab_N e) in *. set (D := tab_D e) in *.
   assert (Fr : -1020 <= (217706 * e) / 65536 <= 954) by (clear - He; Z.div_mod_to_equations; lia).
   assert (Rx : -1148 <= F10 e - lz <= 1100) by (rewrite F10_split; lia).
   destruct (nf_tail_is_assemble H (F10 e - lz) RH Rx) as [Rq Asm]. cbv zeta in Asm.
@@ -461,3 +475,184 @@ Qed.
 (* non-vacuity: the path is taken and decides *)
 Example normal_fast_runs : parse_floating_normal_fast (-5) 12345678901234567 = Some (Some 4772899269882697854).
 Proof. vm_compute. reflexivity. Qed.
+
+(* ---------- the same statement against the oracle of the correspondence run (Spec.Num.round_pos) ---------- *)
+Lemma ndigits_f_bound : forall fuel m, 0 <= ndigits_f fuel m <= Z.of_nat fuel.
+Proof.
+  induction fuel as [|f IH]; intros m; cbn [ndigits_f]; [lia|].
+  destruct (m <=? 0); [lia|]. specialize (IH (m / 10)). lia.
+Qed.
+Lemma ndigits_bound : forall m, 1 <= m < W64 -> 0 <= ndigits m <= 65.
+Proof.
+  intros m Hm. unfold ndigits. pose proof (ndigits_f_bound (S (Z.to_nat (Z.log2 m))) m) as B.
+  assert (Z.log2 m < 64) by (apply Z.log2_lt_pow2; [lia|exact (proj2 Hm)]). pose proof (Z.log2_nonneg m). lia.
+Qed.
+
+(* the binade of a positive rational, characterised with non-negative exponents (-1200 <= E) *)
+Lemma binade_unique : forall num den E, 0 < num -> 0 < den -> -1200 <= E ->
+  den * 2 ^ (E + 1200) <= num * 2 ^ 1200 < den * 2 ^ (E + 1201) -> binade num den = E.
+Proof.
+  intros num den E Hn Hd HE [L U].
+  destruct (binade_correct num den Hn Hd) as [Bp Bn]. cbv zeta in Bp, Bn. set (B := binade num den) in *.
+  assert (P12 : 0 < 2 ^ 1200) by (apply Z.pow_pos_nonneg; lia).
+  (* scaled form of what binade_correct says *)
+  assert (S : -1200 <= B -> den * 2 ^ (B + 1200) <= num * 2 ^ 1200 < den * 2 ^ (B + 1201)).
+  { intros HB. destruct (Z_lt_le_dec B 0) as [Neg|Pos].
+    - specialize (Bn Neg). assert (E1 : 2 ^ 1200 = 2 ^ (B + 1200) * 2 ^ (- B)) by (rewrite <- Z.pow_add_r by lia; f_equal; lia).
+      assert (E2 : 2 ^ (B + 1201) = 2 * 2 ^ (B + 1200)) by (rewrite <- Z.pow_succ_r by lia; f_equal; lia).
+      assert (Pb : 0 < 2 ^ (B + 1200)) by (apply Z.pow_pos_nonneg; lia).
+      rewrite E1, E2. split; nia.
+    - specialize (Bp Pos). assert (E1 : 2 ^ (B + 1200) = 2 ^ B * 2 ^ 1200) by (rewrite <- Z.pow_add_r by lia; f_equal; lia).
+      assert (E2 : 2 ^ (B + 1201) = 2 ^ (B + 1) * 2 ^ 1200) by (rewrite <- Z.pow_add_r by lia; f_equal; lia).
+      rewrite E1, E2. split; nia. }
+  destruct (Z_lt_le_dec B (-1200)) as [Low|Ok].
+  - (* B < -1200 <= E: num/den < 2^(B+1) <= 2^-1200 *)
+    exfalso. specialize (Bn ltac:(lia)).
+    assert (M : 2 ^ 1201 <= 2 ^ (- B)) by (apply Z.pow_le_mono_r; lia).
+    assert (M2 : 2 ^ 1201 = 2 * 2 ^ 1200) by (rewrite <- Z.pow_succ_r by lia; reflexivity).
+    assert (Q : 1 <= 2 ^ (E + 1200)) by (apply Z.lt_pred_le; apply Z.pow_pos_nonneg; lia).
+    assert (K1 : num * (2 * 2 ^ 1200) <= num * 2 ^ (- B)) by (apply Z.mul_le_mono_nonneg_l; lia).
+    assert (K2 : den * 1 <= den * 2 ^ (E + 1200)) by (apply Z.mul_le_mono_nonneg_l; lia).
+    lia.
+  - specialize (S Ok). destruct S as [SL SU].
+    destruct (Z.lt_trichotomy B E) as [Lt|[Eq|Gt]]; [exfalso|exact Eq|exfalso].
+    + assert (M : 2 ^ (B + 1201) <= 2 ^ (E + 1200)) by (apply Z.pow_le_mono_r; lia). nia.
+    + assert (M : 2 ^ (E + 1201) <= 2 ^ (B + 1200)) by (apply Z.pow_le_mono_r; lia). nia.
+Qed.
+
+(* num / den of Spec.Num.round_pos *)
+Definition rp_num (m e : Z) : Z := if 0 <=? e then m * 10 ^ e else m.
+Definition rp_den (e : Z) : Z := if 0 <=? e then 1 else 10 ^ (- e).
+Lemma rp_scaled : forall m e, -400 <= e -> rp_num m e * 10 ^ 400 = m * 10 ^ (e + 400) * rp_den e.
+Proof.
+  intros m e He. unfold rp_num, rp_den. destruct (Z.leb_spec 0 e).
+  - rewrite Z.pow_add_r by lia. ring.
+  - replace (10 ^ 400) with (10 ^ (e + 400) * 10 ^ (- e)) by (rewrite <- Z.pow_add_r by lia; f_equal; lia). ring.
+Qed.
+
+Theorem normal_fast_agrees_with_oracle : forall e m raw, -307 < e < 288 -> 1 <= m < W64 ->
+  parse_floating_normal_fast e m = Some (Some raw) -> round_pos m e = Bits raw.
+Proof.
+  intros e m raw He Hm Run.
+  destruct (normal_fast_core e m raw He Hm Run) as [H [RH [Blk Eraw]]].
+  destruct (normal_fast_correctly_rounded e m raw He Hm Run) as [E [RE Main]]. cbv zeta in Main. destruct Main as [Rq Asm].
+  (* E is determined by H: recompute it as in the main theorem *)
+  destruct (tab_fact e ltac:(lia)) as [s2 [s2x [Ei [R2 [R2x [HD Terr]]]]]].
+  destruct (leading_zeros_range m ltac:(unfold W64 in *; lia)) as [Rlz Rn].
+  set (lz := leading_zeros 64 m) in *. set (N := tab_N e) in *. set (D := tab_D e) in *.
+  assert (Fr : -1020 <= (217706 * e) / 65536 <= 954) by (clear - He; Z.div_mod_to_equations; lia).
+  assert (Rx : -1148 <= F10 e - lz <= 1100) by (rewrite F10_split; lia).
+  destruct (nf_tail_is_assemble H (F10 e - lz) RH Rx) as [Rq' Asm']. cbv zeta in Asm'.
+  set (lz' := if H <? 9223372036854775808 then 1 else 0) in *.
+  assert (Vz : lz' = 0 \/ lz' = 1) by (unfold lz'; destruct (H <? 9223372036854775808); auto).
+  set (E0 := F10 e - lz - lz' + 1150) in *.
+  assert (RE0 : 1 <= E0 <= 2045) by (unfold E0; rewrite F10_split; lia).
+  set (t := E0 - 1075).
+  set (r := 11 - lz').
+  (* the exact value lies in the binade [2^(t+52), 2^(t+53)) *)
+  set (VN := m * 10 ^ (e + 400) * 2 ^ 1200). set (VD := 10 ^ 400 * 2 ^ (t + 1200)).
+  assert (P400 : 0 < 10 ^ 400) by (apply Z.pow_pos_nonneg; lia).
+  assert (Pe : 0 < 10 ^ (e + 400)) by (apply Z.pow_pos_nonneg; lia).
+  assert (P12 : 0 < 2 ^ 1200) by (apply Z.pow_pos_nonneg; lia).
+  assert (Pt : 0 < 2 ^ (t + 1200)) by (apply Z.pow_pos_nonneg; unfold t; lia).
+  assert (Pr : 0 < 2 ^ r) by (apply Z.pow_pos_nonneg; unfold r; lia).
+  assert (DnP : 0 < D * (W64 * W64)) by (unfold W64; lia).
+  pose proof (tab_exact_fact e ltac:(lia)) as Tab. fold N D in Tab.
+  assert (Id : (m * 2 ^ lz * N) * VD = VN * (D * (W64 * W64) * 2 ^ r)).
+  { unfold VD, VN. apply (scaled_identity m lz e ((217706 * e) / 65536) t r N D); unfold t, r, E0; try lia; rewrite ?F10_split; lia. }
+  set (X := m * 2 ^ lz * N) in *. set (Dn := D * (W64 * W64)) in *.
+  assert (Hn : 2 ^ (63 - lz') <= H < 2 ^ (64 - lz')).
+  { unfold lz'. destruct (Z.ltb_spec H 9223372036854775808); cbn; unfold W64 in *; lia. }
+  assert (BlkP : 2 ^ (63 - lz') * Dn < X < 2 ^ (64 - lz') * Dn).
+  { destruct Blk as [B1 B2]. fold X Dn in B1, B2.
+    assert (Q12 : 2 ^ (63 - lz') <= H / 512 * 512 /\ (H / 512 + 1) * 512 <= 2 ^ (64 - lz')).
+    { clear - Vz Hn. destruct Vz as [V|V]; rewrite V in *.
+      - change (2 ^ (63 - 0)) with 9223372036854775808 in *. change (2 ^ (64 - 0)) with 18446744073709551616 in *. Z.div_mod_to_equations. lia.
+      - change (2 ^ (63 - 1)) with 4611686018427387904 in *. change (2 ^ (64 - 1)) with 9223372036854775808 in *. Z.div_mod_to_equations. lia. }
+    destruct Q12 as [Q1 Q2].
+    split; [apply Z.le_lt_trans with (H / 512 * 512 * Dn); [apply Z.mul_le_mono_nonneg_r; lia|exact B1]
+           |apply Z.lt_le_trans with ((H / 512 + 1) * 512 * Dn); [exact B2|apply Z.mul_le_mono_nonneg_r; lia]]. }
+  assert (Bin : VD * 2 ^ 52 < VN /\ VN < VD * 2 ^ 53).
+  { destruct BlkP as [B1 B2].
+    assert (E1 : 2 ^ (63 - lz') = 2 ^ 52 * 2 ^ r) by (unfold r; rewrite <- Z.pow_add_r by lia; f_equal; lia).
+    assert (E2 : 2 ^ (64 - lz') = 2 ^ 53 * 2 ^ r) by (unfold r; rewrite <- Z.pow_add_r by lia; f_equal; lia).
+    rewrite E1 in B1. rewrite E2 in B2.
+    assert (VDp : 0 < VD) by (unfold VD; lia).
+    assert (PDr : 0 < Dn * 2 ^ r) by (apply Z.mul_pos_pos; lia).
+    set (R := 2 ^ r) in *. set (c52 := 2 ^ 52) in *. set (c53 := 2 ^ 53) in *.
+    clearbody R c52 c53 VN VD X Dn. clear - B1 B2 Id VDp PDr.
+    split.
+    - apply Z.mul_lt_mono_pos_r with (Dn * R); [exact PDr|].
+      rewrite <- Id. replace (VD * c52 * (Dn * R)) with (c52 * R * Dn * VD) by ring.
+      apply Z.mul_lt_mono_pos_r; [exact VDp|exact B1].
+    - apply Z.mul_lt_mono_pos_r with (Dn * R); [exact PDr|].
+      rewrite <- Id. replace (VD * c53 * (Dn * R)) with (c53 * R * Dn * VD) by ring.
+      apply Z.mul_lt_mono_pos_r; [exact VDp|exact B2]. }
+  (* E of the main theorem is E0: both assemble to raw; we only need E0 below *)
+  clear E RE Rq Asm.
+  assert (Q : rhu H = nearest_scaled m e t).
+  { unfold nearest_scaled. fold VN VD. unfold rhu.
+    assert (X0 : 0 <= X) by (destruct BlkP as [B1 _]; assert (0 <= 2 ^ (63 - lz') * Dn) by (apply Z.mul_nonneg_nonneg; [apply Z.pow_nonneg|]; lia); lia).
+    assert (VN0 : 0 <= VN) by (unfold VN; apply Z.mul_nonneg_nonneg; [apply Z.mul_nonneg_nonneg|]; lia).
+    assert (VDp : 0 < VD) by (unfold VD; lia).
+    destruct (Z.ltb_spec H 9223372036854775808) as [L|L].
+    - assert (Ez : lz' = 1) by (unfold lz'; destruct (Z.ltb_spec H 9223372036854775808); lia).
+      assert (Er : r = 10) by (unfold r; lia). rewrite Er in Id.
+      rewrite <- (round_at_10 X Dn H DnP ltac:(lia) Blk). apply rne_div_ratio; [exact X0|lia|exact VN0|exact VDp|].
+      change 1024 with (2 ^ 10). exact Id.
+    - assert (Ez : lz' = 0) by (unfold lz'; destruct (Z.ltb_spec H 9223372036854775808); lia).
+      assert (Er : r = 11) by (unfold r; lia). rewrite Er in Id.
+      rewrite <- (round_at_11 X Dn H DnP ltac:(lia) Blk). apply rne_div_ratio; [exact X0|lia|exact VN0|exact VDp|].
+      change 2048 with (2 ^ 11). exact Id. }
+  (* the oracle *)
+  unfold round_pos. pose proof (ndigits_bound m Hm) as Nd.
+  destruct (Z.ltb_spec 400 (e + ndigits m)); [lia|]. destruct (Z.ltb_spec (e + ndigits m) (-400)); [lia|].
+  fold (rp_num m e) (rp_den e). set (num := rp_num m e). set (den := rp_den e).
+  assert (Hnum : 0 < num).
+  { unfold num, rp_num. clear - Hm He. destruct (Z.leb_spec 0 e); [apply Z.mul_pos_pos; [lia|apply Z.pow_pos_nonneg; lia]|lia]. }
+  assert (Hden : 0 < den).
+  { unfold den, rp_den. clear - He. destruct (Z.leb_spec 0 e); [lia|apply Z.pow_pos_nonneg; lia]. }
+  pose proof (rp_scaled m e ltac:(lia)) as RS. fold num den in RS.
+  (* binade of num/den is t + 52 *)
+  assert (Bd : binade num den = t + 52).
+  { apply binade_unique; [exact Hnum|exact Hden|unfold t; lia|].
+    destruct Bin as [B1 B2]. unfold VN, VD in B1, B2.
+    assert (E1 : 2 ^ (t + 52 + 1200) = 2 ^ (t + 1200) * 2 ^ 52) by (rewrite <- Z.pow_add_r by (unfold t; lia); f_equal; lia).
+    assert (E2 : 2 ^ (t + 52 + 1201) = 2 ^ (t + 1200) * 2 ^ 53) by (rewrite <- Z.pow_add_r by (unfold t; lia); f_equal; lia).
+    rewrite E1, E2.
+    (* multiply the claim by 10^400 and use num * 10^400 = m 10^(e+400) den *)
+    set (P4 := 10 ^ 400) in *. set (Pe4 := 10 ^ (e + 400)) in *. set (T12 := 2 ^ (t + 1200)) in *. set (C12 := 2 ^ 1200) in *.
+    set (c52 := 2 ^ 52) in *. set (c53 := 2 ^ 53) in *.
+    clearbody P4 Pe4 T12 C12 c52 c53. clear - B1 B2 RS P400 Hden.
+    split.
+    - apply Z.mul_le_mono_pos_r with P4; [exact P400|].
+      replace (num * C12 * P4) with (num * P4 * C12) by ring. rewrite RS.
+      replace (den * (T12 * c52) * P4) with (den * (P4 * T12 * c52)) by ring.
+      replace (m * Pe4 * den * C12) with (den * (m * Pe4 * C12)) by ring.
+      apply Z.mul_le_mono_nonneg_l; [lia|]. apply Z.lt_le_incl. exact B1.
+    - apply Z.mul_lt_mono_pos_r with P4; [exact P400|].
+      replace (num * C12 * P4) with (num * P4 * C12) by ring. rewrite RS.
+      replace (den * (T12 * c53) * P4) with (den * (P4 * T12 * c53)) by ring.
+      replace (m * Pe4 * den * C12) with (den * (m * Pe4 * C12)) by ring.
+      apply Z.mul_lt_mono_pos_l; [exact Hden|]. exact B2. }
+  rewrite round_rat_uses_binade. cbv zeta. rewrite Bd.
+  change (1 - 1023) with (-1022). destruct (Z.ltb_spec (t + 52) (-1022)); [unfold t in *; lia|].
+  change (53 - 1) with 52. replace (t + 52 - 52) with t by lia.
+  (* the quotient of the oracle is nearest_scaled *)
+  assert (Qs : (if 0 <=? t then rne_div num (den * 2 ^ t) else rne_div (num * 2 ^ (- t)) den) = nearest_scaled m e t).
+  { unfold nearest_scaled. fold VN VD.
+    assert (VN0 : 0 <= VN) by (unfold VN; apply Z.mul_nonneg_nonneg; [apply Z.mul_nonneg_nonneg|]; lia).
+    assert (VDp : 0 < VD) by (unfold VD; lia).
+    destruct (Z.leb_spec 0 t) as [Tp|Tn].
+    - apply rne_div_ratio; [lia|apply Z.mul_pos_pos; [lia|apply Z.pow_pos_nonneg; lia]|exact VN0|exact VDp|].
+      unfold VN, VD. replace (2 ^ (t + 1200)) with (2 ^ t * 2 ^ 1200) by (rewrite <- Z.pow_add_r by lia; reflexivity).
+      transitivity (num * 10 ^ 400 * (2 ^ t * 2 ^ 1200)); [ring|]. rewrite RS. ring.
+    - apply rne_div_ratio; [apply Z.mul_nonneg_nonneg; [lia|apply Z.pow_nonneg; lia]|exact Hden|exact VN0|exact VDp|].
+      unfold VN, VD. replace (2 ^ 1200) with (2 ^ (t + 1200) * 2 ^ (- t)) by (rewrite <- Z.pow_add_r by (unfold t in *; lia); f_equal; lia).
+      transitivity (num * 10 ^ 400 * (2 ^ (t + 1200) * 2 ^ (- t))); [ring|]. rewrite RS. ring. }
+  rewrite Qs, <- Q.
+  rewrite Eraw, Asm'. fold E0. unfold assemble. change (2 ^ 53) with 9007199254740992. change (2 ^ 52) with 4503599627370496.
+  destruct (Z.eqb_spec (rhu H) 9007199254740992) as [Ov|Nov].
+  - destruct (Z.ltb_spec 1023 (t + 52 + 1)); [unfold t in *; lia|]. f_equal. unfold t. lia.
+  - destruct (Z.ltb_spec 1023 (t + 52)); [unfold t in *; lia|]. f_equal. unfold t. lia.
+Qed.
